@@ -2,7 +2,7 @@
 from . import shared as S
 
 META = {
-    'claim_added': 'Also decided: every recogniser exit returns a (verdict, error) pair. Round 3: recognition writes no node, so every candidate sees the same node (R03.9); exactly the classes passed by the caller are registered (R03.10); nobody but __recognize_user_classes, under `not is_abstract`, judges a class itself. Round 6 (E14): caches on the code this property is about are invisible - no value that lives in a memo cell (dict / lazily filled attribute / lru_cache) is modified by the code it is handed to, the key of a cell contains every input its value depends on, no mutable parameter default is modified or handed out; given that, the program is analysed as if every lookup missed.',
+    'claim_added': 'Also decided: every recogniser exit returns a (verdict, error) pair. Round 3: recognition writes no node, so every candidate sees the same node (R03.9); exactly the classes passed by the caller are registered (R03.10); nobody but __recognize_user_classes, under `not is_abstract`, judges a class itself. Round 6 (E14): caches on the code this property is about are invisible - no value that lives in a memo cell (dict / lazily filled attribute / lru_cache) is modified by the code it is handed to, the key of a cell contains every input its value depends on, no mutable parameter default is modified or handed out; given that, the program is analysed as if every lookup missed. Round 11: the descent into registered subclasses is restricted by the __bases__ test alone (R03.2 descent-every-subclass) - a visited set or any other filter inside the candidate loop takes candidates away, and a class below two registered classes (diamond) must be tried below each of them; that much of the diamond case is decided now.',
     'level': 'other',
     'technique': 'static: candidate-loop shape (no early exit, set accumulation), abstract cardinality evaluation of the '
                  'guards of every verdict return, must-pass-through for child judgement and tag tests, decision table of '
